@@ -1383,7 +1383,7 @@ impl Formatter {
         if self.html {
           format!("<span class=\"mech-grammar-range\"><span class=\"mech-grammar-terminal\">\"{}\"</span><span class=\"mech-grammar-range-op\">..</span><span class=\"mech-grammar-terminal\">\"{}\"</span></span>", start.to_string(), end.to_string())
         } else {
-          format!("{}..{}", start.to_string(), end.to_string())
+          format!("\"{}\"..\"{}\"", start.to_string(), end.to_string())
         }
       }
       GrammarExpression::Choice(choices) => {
